@@ -17,7 +17,8 @@ def run_checks():
     out = {}
     for p in props:
         r = subprocess.run(['python3', os.path.join(HERE, 'check.py'), p], cwd=HERE, stdout=subprocess.PIPE,
-                           stderr=subprocess.STDOUT, universal_newlines=True)
+                           stderr=subprocess.STDOUT, universal_newlines=True,
+                           env=dict(os.environ, VERIF_EVIDENCE_DIR='/tmp/seed_eval_evidence'))
         viol = [l for l in r.stdout.splitlines() if l.startswith('VIOLATION') or l.startswith('ANALYSIS-BROKEN')]
         detail = [l.strip() for l in r.stdout.splitlines() if l.startswith('  ')]
         out[p] = {'rc': r.returncode, 'lines': viol, 'detail': detail}
